@@ -158,7 +158,7 @@ class KernExporter(object):
                             self.out_data[row_idx, staff_idx] = kern_el
                 elif isinstance(el, spt.Tempo):
                     # Apply tempo to all splines
-                    kern_el = f"*MM{to_quarter_tempo(el.qpm)}"
+                    kern_el = f"*MM{to_quarter_tempo(el.unit or 'q', el.bpm)}"
                     self.out_data[row_idx] = kern_el
                 elif isinstance(el, spt.Measure):
                     # Apply measure to all splines
